@@ -4,7 +4,7 @@ from derivegen import prepare, route, oracle
 
 RULE = ("DENC <sid> <schema> <def> <value>: a value of a type definition drawn from the schema grammar (checks/derivegen.py: n/b indices with gaps "
         "and permutations, array/map at type, enum and variant level, index_only, transparent, skip, tags at the four levels, with=minicbor::bytes, "
-        "a custom nil-aware codec, aliases of Option, generics, unit/tuple/named shapes, lifetimes, nesting) is encoded by the real derive output "
+        "a custom nil-aware codec, aliases of Option (leaf aliases under a codec and codec-less `type A = Option<T>` fields around references, Vec of references and leaves), generics, unit/tuple/named shapes, lifetimes, nesting) is encoded by the real derive output "
         "(generated crate harness-derive) and by the Coq interpreter gen_encode; S= is ser(prefer(doc_tree)) from Spec/DeriveDoc.v. All Some/None "
         "combinations of the optional fields (up to 2^10 per definition) x boundary leaf values. DMETA: the same definition with shuffled "
         "declaration order, fresh names, n<->b and other attribute spellings must give identical bytes (O=) and the model of the twin gives S=. "
